@@ -5,6 +5,6 @@ CONSTANTS
   MaxBlk = 2
   KeepCommittedInCache = TRUE
 VIEW view
-INVARIANTS NoDuplicates HeldIsCached WithinBounds NoReofferCommitted
+INVARIANTS NoDuplicates HeldIsCached WithinBounds NoReofferCommitted ResubOnlyAfterFlush
 PROPERTIES RejectsDuplicates
 CHECK_DEADLOCK FALSE
